@@ -75,6 +75,11 @@ UNITS = {
         "edits": [child_mod_cfg("clock-bound-shm/src/lib.rs", "verif_search_compute", "verif_search")],
     },
     # ---- clock-bound-d ----------------------------------------------------------------------
+    "d_extract_search": {
+        "crate": "clock-bound-d", "features": None,
+        "files": [("clock-bound-d/src/verif_search_extract.rs", "harness/clock-bound-d/verif_search_extract.rs")],
+        "edits": [child_mod_cfg("clock-bound-d/src/shm_writer.rs", "verif_search_extract", "verif_search")],
+    },
     "d_main": {
         "crate": "clock-bound-d", "features": None,
         "gen": gen_verif_main,
@@ -156,6 +161,25 @@ UPD_ASSUME = [A["tools"], A["weaver"],
               "the ShmWrite sink is a harness type recording the last record and a counter (the real ShmWriter::write is C11)"]
 
 PROPS = {
+    "C07": {
+        "functions": ["clock_bound_d::shm_writer::extract_bound_from_tracking (verbatim body, Verus: formula shape/dataflow; Kani: sign)",
+                      "clock_bound_d::shm_writer::ShmUpdater::process_clock_update (PHC term added exactly, Kani)"],
+        "assumptions": [A["tools"], A["extract"], A["weaver"],
+                        "A3 (assumed, shape-keyed): the f64 expression ((delay / 2. + dispersion + offset.abs()) * 1_000_000_000.0).ceil() as i64 denotes fbound(delay, dispersion, offset)",
+                        "A4 (assumed rounding model): on meaningful reports (non-negative delay/dispersion, wire exponents in [-35,13]) fbound is >= 0, "
+                        "never smaller than the exact sum*10^9 minus a relative 2^-50, and less than that sum plus the same tolerance plus 1 ns; "
+                        "cross-checked only by bounded/native evaluation of the real function",
+                        "chrony_candm's From<ChronyFloat> for f64 yields coef * 2^(exp-25) exactly (stand-in cf_val; powi stubbed exact under Kani)",
+                        "std contract of SystemTime::elapsed (stubbed under Kani)"],
+        "trusted": ["verus/extract.rs.tmpl (Tracking/ChronyFloat/std::time stand-ins, A3/A4)", "tools/extract.py + tools/verus_gen.py"],
+        "groups": [
+            {"kind": "verus", "gen": "extract", "obligations": [r"C07\..*"], "rlimit": 30,
+             "float_dependent": ["C07.extract.formula_shape", "C07.extract.never_negative", "C07.extract.never_smaller_than_the_sum",
+                                 "C07.extract.rounded_up_by_less_than_1ns", "C07.extract.body_obligations"],
+             "pair": {"kind": "search", "crate": "clock-bound-d", "units": ["d_extract_search"], "features": None, "test": "verif_search_extract"}},
+            dict(DGRP, harnesses=[dh("c07_nonneg"), dh("c08_update_step", obligations=["C07.update.phc_added", "C08.update.one_publication"])]),
+        ],
+    },
     "C08": {
         "functions": UPD_FUNCS,
         "assumptions": UPD_ASSUME,
